@@ -299,6 +299,37 @@ def histOfRows (rows : List (List ActionRow)) : Except Err (List (List ActionF))
 def itemOfRow (r : ItemRow) : PlayerItem :=
   ⟨r.1, r.2.1, r.2.2.1.map propOfRow, r.2.2.2.1, r.2.2.2.2.1, r.2.2.2.2.2⟩
 
+/-! ### Predicates used in the statements of `Props/C20Live.lean` (all decidable) -/
+
+/-- A list of class attributes gives the five flag constants the model hard-codes. -/
+def PosFlagsTied (attrs : List (String × Int)) : Prop := posFlagTable attrs = some modelPosFlags
+
+instance (attrs : List (String × Int)) : Decidable (PosFlagsTied attrs) := by
+  unfold PosFlagsTied; infer_instance
+
+/-- The model with flag table `F` reproduces what `apply` did to the probe target `curI` with
+packet `pktI` for one row `(flags, resulting [x, y, z, yaw, pitch])` of an observation table. -/
+def PosRowAgrees (F : PosFlagTable) (pktI curI : List Int) (r : Int × List Int) : Prop :=
+  ∃ pkt cur, posOfInts pktI = some pkt ∧ posOfInts curI = some cur ∧
+    posOfInts r.2 = some (applyPosLookWith F r.1 pkt cur)
+
+instance (F : PosFlagTable) (pktI curI : List Int) (r : Int × List Int) :
+    Decidable (PosRowAgrees F pktI curI r) :=
+  decidable_of_iff
+    ((posOfInts pktI).bind (fun pkt => (posOfInts curI).map fun cur =>
+      decide (posOfInts r.2 = some (applyPosLookWith F r.1 pkt cur))) = some true) (by
+    unfold PosRowAgrees
+    cases posOfInts pktI <;> cases posOfInts curI <;> simp)
+
+/-- Every row `(class, members, printed names)` of a table carries exactly the names the int model
+prints for `lo, …, lo+count-1`. -/
+def NamesAgree (tbl : List (String × List (String × Int) × List (Option String))) (lo : Int)
+    (count : Nat) : Prop :=
+  ∀ e ∈ tbl, e.2.2 = namesFrom e.2.1 lo count
+
+instance (tbl : List (String × List (String × Int) × List (Option String))) (lo : Int) (count : Nat) :
+    Decidable (NamesAgree tbl lo count) := by unfold NamesAgree; infer_instance
+
 /-- Model of CHANGED code (refutation examples only): a history as `AddPlayerAction.apply` would see it
 if the constructor call of lines 126-132 passed `f`-altered slots. -/
 def mutateAdds (f : AddPlayer → AddPlayer) (hist : List (List ActionF)) : List (List ActionF) :=
